@@ -89,6 +89,21 @@ def gen_call(rng, p):
                 c["sortby"]["sink"] = rng.choice(names)
         if not c["sortby"]:
             c["sortby"]["mesh"] = "dx"
+    # a sortby dictionary shared by all the caller's loads: it may name groups that this call does not load
+    if k in ("groups", "part_only", "mesh_off", "vars", "pred_val") and rng.random() < 0.3:
+        sb = {}
+        if rng.random() < 0.7:
+            sb["mesh"] = "density" if "density" in p["hydro_vars"] else "dx"
+        if p["part"]:
+            uniq = [x[0] for x in p["part"]["columns"] if x[1] in ("d", "i") and x[0][-2:] not in ("_x", "_y", "_z")]
+            if uniq and rng.random() < 0.7:
+                sb["part"] = rng.choice(uniq)
+        if p["sink"] and not p["sink"].get("empty") and rng.random() < 0.5:
+            names = [x[0] for x in p["sink"]["columns"] if x[0] not in ("x", "y", "z", "vx", "vy", "vz")]
+            if names:
+                sb["sink"] = rng.choice(names)
+        if sb and not (k == "vars" and sb.get("mesh") not in c.get("mesh", [])):
+            c["sortby"] = sb
     # optional extras riding on any call
     if k in ("pred_pos", "pred_val", "pred_level", "pred_none") and rng.random() < 0.3:
         c["off"] = rng.choice(["part", "sink"])
